@@ -66,6 +66,32 @@ MUTANTS = [
      'sample: self.check_fit() removed'),
     ('C17', 'sample_rows_prepended', VINE, [('sampled_values.append(self._sample_row())', 'sampled_values.insert(0, self._sample_row())')],
      'sample: sampled_values.insert(0, row)  (rows in reverse order of the draws)'),
+    ('C14', 'ser_edge_no_parents', TREE, [(I12 + "'parents': parents,\n", '')],
+     "Edge.to_dict without the 'parents' entry"),
+    ('C14', 'ser_edge_key_swap', TREE, [("'L': self.L,", "'L': self.R,")],
+     "Edge.to_dict: 'L': self.R"),
+    ('C14', 'ser_edge_parents_guard', TREE, [('if self.parents:\n            parents = [', 'if self.parents is not None:\n            parents = [')],
+     'Edge.to_dict: `if self.parents is not None:` (an empty list is serialised as [] instead of None)'),
+    ('C14', 'ser_tree_header_order', TREE, [("{'tree_type': self.tree_type, 'type': get_qualified_name(self), 'fitted': fitted}",
+                                             "{'tree_type': self.tree_type, 'fitted': fitted, 'type': get_qualified_name(self)}")],
+     "Tree.to_dict: 'fitted' placed before 'type' in the header"),
+    ('C14', 'ser_tree_no_early_return', TREE, [(I8 + 'if not fitted:\n' + I12 + 'return result\n\n' + I8 + 'result.update', I8 + 'result.update')],
+     'Tree.to_dict: the early return of an unfitted tree removed (AttributeError on self.level)'),
+    ('C14', 'ser_prev_level', TREE, [('if self.level == 1:\n            return self.previous_tree.tolist()', 'if self.level == 0:\n            return self.previous_tree.tolist()')],
+     'Tree._serialize_previous_tree: `if self.level == 0:` (the u-matrix of tree 1 is not written)'),
+    ('C14', 'ser_relink_not_advanced', VINE, [(I12 + 'previous = tree\n', '')],
+     '_deserialize_trees: `previous = tree` dropped (every tree is linked to the FIRST tree instead of its predecessor)'),
+    ('C14', 'ser_relink_first', VINE, [('tree = Tree.from_dict(tree_dict, previous)', 'tree = Tree.from_dict(tree_dict, trees[0])')],
+     '_deserialize_trees: Tree.from_dict(tree_dict, trees[0])  (linked by a fixed position)'),
+    ('C14', 'ser_from_dict_key', TREE, [("instance.n_nodes = tree_dict['n_nodes']", "instance.n_nodes = tree_dict['level']")],
+     "Tree.from_dict: instance.n_nodes = tree_dict['level']"),
+    ('C14', 'ser_deser_prev_none', TREE, [("            return np.array(tree_dict['previous_tree'])\n\n        return previous",
+                                           "            return np.array(tree_dict['previous_tree'])\n\n        return None")],
+     'Tree._deserialize_previous_tree: `return None` (no tree is linked to its predecessor)'),
+    ('C14', 'ser_deser_prev_level', TREE, [("if tree_dict['level'] == 1:", "if tree_dict['level'] == 2:")],
+     "Tree._deserialize_previous_tree: `if tree_dict['level'] == 2:`"),
+    ('C14', 'ser_trees_prepend', VINE, [('trees.append(tree)', 'trees.insert(0, tree)')],
+     '_deserialize_trees: trees.insert(0, tree)  (trees in reverse order)'),
 ]
 
 HARMLESS = [
@@ -75,6 +101,12 @@ HARMLESS = [
      'sample: annotations added, docstring rewritten'),
     ('C17', 'h_rename_tree_local', TREE, [('num_edges', 'n_nodes_')],
      'get_adjacent_matrix: the local num_edges renamed'),
+    ('C14', 'h_rename_deser_local', VINE, [('tree_dict', 'td')],
+     '_deserialize_trees: the loop variable renamed'),
+    ('C14', 'h_swap_append', VINE, [(I12 + 'trees.append(tree)\n' + I12 + 'previous = tree\n', I12 + 'previous = tree\n' + I12 + 'trees.append(tree)\n')],
+     '_deserialize_trees: `previous = tree` before `trees.append(tree)` (same object, same list: the proof goes through by conversion)'),
+    ('C14', 'h_tree_docstrings', TREE, [('"""Return a `dict` with the parameters to replicate this Tree.', '"""Serialise this tree.'), ('"""Return a `dict` with the parameters to replicate this Edge.', '"""Serialise this edge (parents recursively).')],
+     'docstrings of Tree.to_dict and Edge.to_dict rewritten'),
 ]
 
 
